@@ -1,6 +1,8 @@
 import GrmVerif.Lemmas.Search
 import GrmVerif.Lemmas.RankImpl2
 import GrmVerif.Lemmas.SearchImpl7
+import GrmVerif.Lemmas.CpctRun
+import GrmVerif.Lemmas.CpctEx
 /-!
 # C06 — repair sequences are the complete minimum-cost set, ranked as documented
 
@@ -641,6 +643,108 @@ theorem hyps_decidable (E : Env) (start : Pos) (hcost : ∀ t, 1 ≤ E.cost t)
     (h : checkHyps E start = true) : Hyps E start :=
   hyps_of_check hcost h
 
+/-! ## Capstone: the modelled recoverer inside the recovering parser
+
+`Cpct.cpctRecover` (`Model/Cpct.lean`) is `recoverImpl` seen through the interface of the recovering
+driver `Rec.recRun`; `Cpct.recCalls` lists the configurations at which the driver consults it during a
+run. -/
+
+open Cpct
+
+/-- **A minimum-cost search sequence still repairs after its trailing Shifts are stripped**
+(`validSeq_stripShifts`). For every table, input, cost function, `N` and configuration `c`: if `seq` is
+a sequence of the declarative search from `c` (any cost), then `stripShifts seq` — what
+`simplify_repairs` reports for it — applies from `c` with plain LR semantics, satisfies
+`validSeq … N` (the plain parse that follows performs the stripped Shifts itself and then has made `N`
+Shifts or accepts), and inserts only tokens of the grammar other than end-of-input. No hypothesis. -/
+theorem stripped_search_sequence_repairs (G : Grammar) (A : Automaton) (w : List Nat) (cost : Nat → Nat)
+    (N : Nat) (c : Pos) (k : Nat) (seq : List Repair) (h : Search G A w cost N ⟨c, [], 0⟩ k seq) :
+    validSeq G A w N c (stripShifts seq) = true ∧
+    (∃ c1, applySeq G A w c (stripShifts seq) = some c1) ∧
+    (∀ t, Repair.insert t ∈ stripShifts seq → t < G.ntoks ∧ t ≠ G.eof) :=
+  search_stripped_valid h
+
+/-- **Capstone: at every error of a run of the modelled recovering parser, what is reported is the
+reference answer for the configuration the run is in.** On a table with `Cpct.TableOK` (costs ≥ 1, no
+shift of end-of-input, `state_actions` exact, `PARSE_AT_LEAST ≥ 1`), for every `HashSet` order,
+`%avoid_insert` set, lexeme offsets, window, search budget, driver fuel and start within the input:
+(1) the errors the run appends are, in order, the calls of the recoverer: position of the call, and
+    what `cpctRecover` reported there (`recCalls`, `errOf`);
+(2) every call is made at a configuration whose top state refuses the next lexeme, inside the input
+    (`errCfg`), so the hypotheses `Hyps` of the search theorems hold there — they are not assumed;
+(3) if the search of a call ended properly with nothing to report (`cpctOutcome = noRepair`) then no
+    repair sequence of representable cost exists at that configuration (no window hypothesis:
+    `rank_cnds` always keeps a group);
+(4) at every call whose candidates all end inside the `TRY_PARSE_AT_MOST` window (`WithinWindow`, the
+    hypothesis of `recover_eq_reference`, carried explicitly; it holds e.g. when the input ends inside
+    the window, `withinWindow_of_short`): if sequences are reported, there is a cost `k` such that for
+    every cap `≥ k` the reference `refRepairs` of THAT configuration answers `k` with exactly the
+    reported set. -/
+theorem cpct_reports_minimum_cost_repairs_at_every_error (E : Env) (hT : TableOK E)
+    (hs : List Seq → List Seq) (hhs : HashSetLike hs) (avoid : Nat → Bool) (lexStart : Nat → Nat)
+    (win sfuel : Nat) (fuel : Nat) (c0 : Pos) (hc0 : c0.pos ≤ E.w.length) (errs : List Err) :
+    (recRun E.G E.A E.w (cpctRecover E hs avoid lexStart win sfuel) fuel c0 errs).2 =
+      errs ++ (recCalls E.G E.A E.w (cpctRecover E hs avoid lexStart win sfuel) fuel c0).map
+        (errOf (cpctRecover E hs avoid lexStart win sfuel)) ∧
+    ∀ c ∈ recCalls E.G E.A E.w (cpctRecover E hs avoid lexStart win sfuel) fuel c0,
+      errCfg E.G E.A E.w c = true ∧
+      (cpctOutcome E hs avoid lexStart win sfuel c = .noRepair →
+        ∀ k, k ≤ U16MAX → ∀ seq, ¬ Search E.G E.A E.w E.cost E.N ⟨c, [], 0⟩ k seq) ∧
+      (WithinWindow E c win →
+        ∀ c' rs, cpctRecover E hs avoid lexStart win sfuel c = some (c', rs) →
+          ∃ k, ∀ cap, k ≤ cap → ∃ ref, refRepairs E.G E.A E.w E.cost E.N win c cap = some (k, ref) ∧
+            ∀ r, r ∈ ref ↔ r ∈ rs) := by
+  refine ⟨recRun_eq_calls _ _ _ _ fuel c0 errs, ?_⟩
+  intro c hc
+  have he := recCalls_cpct_errCfg hT hhs fuel c0 hc0 c hc
+  have H := hyps_of_errCfg hT he
+  refine ⟨he, ?_, fun hwin => ?_⟩
+  · intro ho
+    unfold cpctOutcome at ho
+    cases hri : recoverImpl E hs avoid lexStart win sfuel c with
+    | panic => rw [hri] at ho; cases ho
+    | fuelOut => rw [hri] at ho; cases ho
+    | ok x =>
+      obtain ⟨c', out⟩ := x
+      rw [hri] at ho
+      simp only at ho
+      by_cases hemp : out.isEmpty = true
+      · have : out = [] := by simpa using hemp
+        subst this
+        exact search_none E c H sfuel (noRepair_dijkstra_nil hhs H hri)
+      · rw [if_neg hemp] at ho; cases ho
+  · intro c' rs h
+    obtain ⟨out, hri, hne, rfl⟩ := cpct_some_unpack h
+    obtain ⟨k, hk⟩ := (recover_eq_reference E c H hs hhs avoid lexStart win hwin sfuel c' out hri).2 hne
+    refine ⟨k, fun cap hcap => ?_⟩
+    obtain ⟨ref, h1, h2, _⟩ := hk cap hcap
+    refine ⟨ref, h1, fun r => ?_⟩
+    rw [h2 r]
+    simp only [eraseAll, List.mem_map]
+
+/-- **The same without the window hypothesis, for inputs that end inside the window.** If the input is
+no longer than `TRY_PARSE_AT_MOST` (`|w| ≤ win`; decidable, and what the driver counts per error as
+`errors_within_the_window_hypothesis` is the weaker `|w| ≤ pos + win`), every call of the recoverer in a
+run of the modelled recovering parser reports exactly the reference set of the configuration the run is
+in, or — when the search ended properly with nothing to report — no repair of representable cost exists
+there. Hypotheses on the table and the costs only (`TableOK`). -/
+theorem cpct_reports_minimum_cost_repairs_at_every_error_of_short_input (E : Env) (hT : TableOK E)
+    (hs : List Seq → List Seq) (hhs : HashSetLike hs) (avoid : Nat → Bool) (lexStart : Nat → Nat)
+    (win sfuel : Nat) (hshort : E.w.length ≤ win) (fuel : Nat) (c0 : Pos) (hc0 : c0.pos ≤ E.w.length) :
+    ∀ c ∈ recCalls E.G E.A E.w (cpctRecover E hs avoid lexStart win sfuel) fuel c0,
+      (∀ c' rs, cpctRecover E hs avoid lexStart win sfuel c = some (c', rs) →
+        ∃ k, ∀ cap, k ≤ cap → ∃ ref, refRepairs E.G E.A E.w E.cost E.N win c cap = some (k, ref) ∧
+          ∀ r, r ∈ ref ↔ r ∈ rs) ∧
+      (cpctOutcome E hs avoid lexStart win sfuel c = .noRepair →
+        ∀ k, k ≤ U16MAX → ∀ seq, ¬ Search E.G E.A E.w E.cost E.N ⟨c, [], 0⟩ k seq) := by
+  intro c hc
+  obtain ⟨he, hno, h⟩ := (cpct_reports_minimum_cost_repairs_at_every_error E hT hs hhs avoid lexStart win sfuel
+    fuel c0 hc0 []).2 c hc
+  have hpos : c.pos ≤ E.w.length := by
+    simp only [errCfg, Bool.and_eq_true, decide_eq_true_eq] at he
+    exact he.1
+  exact ⟨h (withinWindow_of_short hpos (by omega)), hno⟩
+
 /-! Tests: the hypotheses are satisfiable, the model computes, and the hypothesis of the second part
 of `simplify_ranked` is needed. -/
 example : HashSetLike dedup := hashSetLike_dedup
@@ -718,5 +822,26 @@ example : refRepairs mE.G mE.A mE.w mE.cost mE.N 250 ⟨[0], 0⟩ 2 =
 /-- the merge closure on two chains: the result expands to both sequences, the kept node's first -/
 example : (mergeRepairs (.rep (.rep .term (.insert 1)) (.insert 3)) (.rep (.rep .term (.insert 0)) (.insert 3))).map
     traverse = some [[.insert 1, .insert 3], [.insert 0, .insert 3]] := by decide
+
+
+/-! Tests for the capstone (`Lemmas/CpctEx.lean`: the certified merged LALR table with its
+`state_actions` view, input `x a d`): the run consults the modelled recoverer once, at the configuration
+left by the reduction kept under the refused `d`; the hypotheses hold there; the conclusion is the
+evaluated one. -/
+example : recCalls C05.exG2 exA3 [0, 2, 4] exRec 10 ⟨[0], 0⟩ = [⟨[4, 2, 0], 2⟩] := by decide +kernel
+example : TableOK exE := tableOK_of_check ex3_cost (by decide) (by decide)
+example : WithinWindow exE ⟨[4, 2, 0], 2⟩ 250 := withinWindow_of_short (by decide) (by decide)
+/-- the conclusion of `cpct_reports_minimum_cost_repairs_at_every_error` at that call, from the theorem:
+the reference answers cost 2 with exactly the reported set … -/
+example : ∃ k, ∀ cap, k ≤ cap → ∃ ref, refRepairs C05.exG2 exA3 [0, 2, 4] (fun _ => 1) 3 250 ⟨[4, 2, 0], 2⟩ cap = some (k, ref) ∧
+    ∀ r, r ∈ ref ↔ r ∈ [[Repair.insert 3, Repair.delete]] :=
+  ((cpct_reports_minimum_cost_repairs_at_every_error exE (tableOK_of_check ex3_cost (by decide) (by decide)) dedup
+    hashSetLike_dedup (fun _ => false) (fun i => 3 * i + 1) 250 200 10 ⟨[0], 0⟩ (by decide) []).2 ⟨[4, 2, 0], 2⟩
+    (by decide +kernel)).2.2 (withinWindow_of_short (by decide) (by decide)) ⟨[9, 4, 2, 0], 3⟩ [[.insert 3, .delete]] (by decide +kernel)
+/-- … and by evaluation -/
+example : refRepairs C05.exG2 exA3 [0, 2, 4] (fun _ => 1) 3 250 ⟨[4, 2, 0], 2⟩ 2 =
+    some (2, [[.insert 3, .delete]]) := by decide +kernel
+/-- the full search sequence behind the reported one, and its stripped form -/
+example : validSeq C05.exG2 exA3 [0, 2, 4] 3 ⟨[4, 2, 0], 2⟩ (stripShifts [.insert 3, .delete]) = true := by decide
 
 end GrmVerif.C06
